@@ -12,6 +12,9 @@ from .. import jx, sym
 from ..sym import Le, Lt, Eq, Holds, v_min, v_max, v_abs, v_lt, v_le, v_eq, v_and, v_or, v_not, v_sub, v_add, v_mul, v_sq, v_dot, v_sum, v_if
 
 P = 'C12'
+import sys as _sys
+if hasattr(_sys, 'set_int_max_str_digits'):
+    _sys.set_int_max_str_digits(0)      # exact rationals of ground validation runs can have > 4300 digits
 
 NA = ('eigen_sym33_non_unit / eigen_sym33_unit on general symmetric tensors (rational functions of degree ~8 in six variables with a dozen '
       'data-dependent switches): replaced by their contract in O5/O6; the real routine is decided only on the low-dimensional families of O7',
@@ -39,6 +42,14 @@ DESIGNED_NOT_REGISTERED = [
      'tolerance proof needs error propagation through the deflation'),
     ('O7 in-plane block [[a,g,0],[g,b,0],[0,0,c]] with a != b or c != a (3-4 parameters), and g*E + diag(0,0,c)', 'unknown @120-200 s (same reason); '
      'registered instead: a*I + g*E for the three coordinate planes and a*I + g*diag(-1,0,1), all sign patterns, incl. nearly isotropic members'),
+    ('O7 end-to-end families with equal in-plane diagonal and a free third entry [[a,g,0],[g,a,0],[0,0,c]], c != a (incl. the lines c = 0, c = 2a)',
+     'unknown @60 s even for one normalised parameter: the Pade approximant is evaluated at a symbolic argument (vacuity twin unknown too). The exact-Pade '
+     'lines of this family (rr = 0, |rr| = 1, c = a) never have the harmful pivot tie. Registered instead: the deflation stage on these families with '
+     'the named local eval2 cut to the exact eigenvalue (O7.eigen_sym33_deflation_on_pivot_ties), all three pivot ties'),
+    ('O7 deflation stage, members whose out-of-plane eigenvalue -2d is the extreme one (cases C+/C-)', 'unknown @60 s with and without sqrt hints (the '
+     'Wilkinson discriminant is a perfect square the solver does not find within the pruning time-out)'),
+    ('O8a with a general (non-eigenframe) V', 'unknown/hang @300 s (degree-7 rational identity in 40 variables); eigenframe registered'),
+    ('O8b with both directions symbolic', 'entries [02],[12] unknown @60 s; registered with the second direction over the symmetric basis (linearity)'),
     ('O7 monolithic queries on eigen_sym33_unit without the normalisation cut for 1-parameter families other than s*I', 'erratic (14 s to unknown @120 s '
      'depending on the goal grouping); replaced by the cut-lemma form, which discharges in milliseconds'),
 ]
@@ -1310,6 +1321,11 @@ def _tie_family(plane):
     return fam
 
 
+def _third(x):
+    """x / 3 exactly (the binary64 constant 1/3 is not one third)"""
+    return x / 3.0 if sym.num(x) else x / 3
+
+
 def _tie_cases():
     """hypothesis cases on (a, g, c): d = (a - c)/3; deviatoric eigenvalues d + g, d - g (in-plane) and -2 d (out of plane).
     Cases: the in-plane eigenvalue d + g is the strictly extreme one, positive (P) or negative (N); the third pivot candidate is
@@ -1319,8 +1335,8 @@ def _tie_cases():
         for sub in (1, 2):
             def hyps(p, sgn=sgn, sub=sub):
                 a, g, c = p
-                d = v_mul(1.0 / 3.0, v_sub(a, c))
-                c1 = v_mul(1.0 / 3.0, v_add(v_mul(2.0, a), c))
+                d = _third(v_sub(a, c))
+                c1 = _third(v_add(v_mul(2.0, a), c))
                 e = v_mul(sgn, v_add(d, g))
                 o1, o2 = v_sub(d, g), v_mul(-2.0, d)
                 k2le = v_le(v_sq(v_sub(v_sub(c, a), g)), v_mul(2.0, v_sq(g)))
@@ -1346,7 +1362,7 @@ def _o7_tie(h, plane, cases):
         return smp
     for cname in cases:
         hyps = allc[cname]
-        estar = lambda p: v_add(v_mul(1.0 / 3.0, v_sub(p[0], p[2])), p[1])
+        estar = lambda p: v_add(_third(v_sub(p[0], p[2])), p[1])
         name = 'tie_%s[%s]' % (plane, cname)
         c = StageCase(h, fn, T.eigen_sym33_non_unit, 3, smp_for(cname), name, hyps, cut={'eval2': estar})
 
@@ -1355,10 +1371,21 @@ def _o7_tie(h, plane, cases):
             sc = _inf_norm(A)
             AV, VL, G = mm(A, V), mm(V, mdiag(lam)), mm(mT(V), V)
             nrm = [G[0][0], G[1][1], G[2][2]]
-            return hyps(list(i['p'])), [
-                Eq(fl(AV), fl(VL), name='eigen_equation_A_V_is_V_lam', scale=sc),
+            if sym.isz(nrm[0]) or sym.isz(sc):
+                nonzero_atom = Lt(0.0, nrm, name='eigenvectors_nonzero', scale=0.0)
+            else:
+                # float replay: `non-zero` must not be satisfied by rounding noise. In exact arithmetic a zero vector satisfies the eigen-equation
+                # trivially; in binary64 the same defect shows as a finite but wrong pair, so the replay evaluates the conjunction of this atom
+                # with the (separately proved) eigen-equation: |A v - lam v|_inf <= 1e-9 |A|_inf |v|_inf for every returned pair
+                ok = True
+                for y in range(3):
+                    vmax = max(abs(V[x][y]) for x in range(3))
+                    res = max(abs(AV[x][y] - VL[x][y]) for x in range(3))
+                    ok = ok and vmax > 0.0 and res <= 1e-9 * sc * vmax
+                nonzero_atom = Holds(ok, name='eigenvectors_nonzero')
+            return hyps(list(i['p'])), [Eq(AV[x][y], VL[x][y], name='eigen_equation_A_V_is_V_lam[%d%d]' % (x, y), scale=sc) for x in range(3) for y in range(3)] + [
                 Eq([G[0][1], G[0][2], G[1][2]], 0.0, name='eigenvectors_orthogonal', scale=1.0),
-                Lt(0.0, nrm, name='eigenvectors_nonzero', scale=0.0),
+                nonzero_atom,
                 Holds(v_and(v_le(lam[0], lam[1]), v_le(lam[1], lam[2])), name='ascending')]
         prove_coi(c, name, spec, cap=60)
 
@@ -1383,3 +1410,329 @@ def o7e(h):
                   'branch conditions implied by the case hypotheses are folded during interpretation (Pruner); sqrt definitions filtered by cone of influence')
     for plane in (('xy', 'yz', 'xz') if h.thorough() else ('xy',)):
         _o7_tie(h, plane, ('P1', 'N1', 'P2', 'N2'))
+
+
+# ------------------------------------------------------------------------------------------------ O8: second-order rules
+PERT_NOTE = ('second-order obligations with the eigen stub: the stub (lam, V) carries, as a jax.custom_jvp, the standard first-order perturbation '
+             'contract of a symmetric eigen-decomposition with DISTINCT eigenvalues: dlam_i = (V^T sym(dC) V)_ii, dV = V Omega, '
+             'Omega_ij = (V^T sym(dC) V)_ij / (lam_j - lam_i) (i != j), Omega_ii = 0. This is what differentiating the real eigen-solver must '
+             'deliver at distinct eigenvalues; it is assumed, not verified. Nothing is claimed here at repeated eigenvalues.')
+
+
+def _pert_stub():
+    @jax.custom_jvp
+    def stub(C, lam, V):
+        return lam, V
+
+    @stub.defjvp
+    def stub_jvp(primals, tangents):
+        C, lam, V = primals
+        dC = tangents[0]
+        W = V.T @ (0.5 * (dC + dC.T)) @ V
+        dlam = jnp.stack([W[0, 0], W[1, 1], W[2, 2]])
+        gap = lam[None, :] - lam[:, None]                       # gap_ij = lam_j - lam_i
+        off = 1.0 - jnp.eye(3)
+        Om = off * W / (gap + jnp.eye(3))
+        return (lam, V), (dlam, V @ Om)
+    return stub
+
+
+class eig_stub_pert:
+    """TensorMath.eigen_sym33_unit := A -> stub(A, lam, V) with the perturbation contract as its derivative rule"""
+
+    def __init__(self, lam, V):
+        self.lam, self.V, self.stub = lam, V, _pert_stub()
+
+    def __enter__(self):
+        self.old = TM().eigen_sym33_unit
+        TM().eigen_sym33_unit = lambda A: self.stub(A, self.lam, self.V)
+
+    def __exit__(self, *a):
+        TM().eigen_sym33_unit = self.old
+
+
+def _omega(lam, W):
+    return [[0.0 if i == j else W[i][j] / (lam[j] - lam[i]) if sym.num(W[i][j]) and sym.num(lam[i]) and sym.num(lam[j])
+             else (0.0 if i == j else sym.toz(W[i][j]) / (sym.toz(lam[j]) - sym.toz(lam[i]))) for j in range(3)] for i in range(3)]
+
+
+def abstract_divisions(terms):
+    """replace every maximal sub-term `x / y` with a non-numeral divisor by one fresh real per distinct term (shared over all the given
+    terms). Sound for proving equalities (the abstraction forgets what the quotients are: more models), and it turns `rational identity
+    modulo the same quotient terms on both sides` into a polynomial identity that the solver normalises."""
+    table, keep = {}, []
+
+    def walk(e):
+        if not sym.isz(e) or z3.is_const(e):
+            return
+        if e.decl().kind() == z3.Z3_OP_DIV and not z3.is_rational_value(e.arg(1)) and not z3.is_int_value(e.arg(1)):
+            if e.get_id() not in table:
+                table[e.get_id()] = (e, z3.Real('quot!%d' % len(table)))
+            return
+        for ch in e.children():
+            walk(ch)
+    zs = [sym.toz(t) for t in terms]
+    for t in zs:
+        walk(t)
+    subs = list(table.values())
+    return [z3.substitute(t, *subs) if subs else t for t in zs]
+
+
+@obligation(P, 'O8a.second_order_helper_structure', cap=300)
+def o8a(h):
+    """derivative of the real _symmetric_matrix_function_jvp_helper along a second direction dC2 (jax.jvp through the helper, the eigen
+    stub differentiating by the perturbation contract) equals the product-rule derivative of its Daleckii-Krein form:
+    V [Omega M + M Omega^T + dH o W + H o (Omega^T W + W Omega)] V^T, M = H o W, W = V^T sym(dC) V, dH_ii = f''(lam_i) dlam_i,
+    dH_ij = d1 rd dlam_i + d2 rd dlam_j, for arbitrary tables of f', f'', rd, d1 rd, d2 rd (generic scalar function)"""
+    T = TM()
+    h.encoded(T._symmetric_matrix_function_jvp_helper, T.sym)
+    h.bounds('lam: all of R^3 with pairwise distinct entries (any order); eigenframe: V = I, C = diag(lam) (the general-V identity is the same product rule but was unknown @300 s); '
+             "dC, dC2: all real 3x3; tables f'(lam_i), f''(lam_i), rd / d1 rd / d2 rd on the three pairs: free reals")
+    h.outside('repeated eigenvalues (the confluent branch of the helper differentiates to an asymmetric rule: see O8c)', *NA)
+    h.assume_note(PERT_NOTE, CONTRACT_NOTE)
+    PAIRS = ((0, 1), (1, 2), (2, 0))
+
+    def fn(lam, Cd, C2d, a, f2, b, rb1, rb2):
+        V = jnp.eye(3)
+        tab = lambda x, t: jnp.where(x == lam[0], t[0], jnp.where(x == lam[1], t[1], t[2]))
+
+        def tab2(x1, x2, t):
+            hit = lambda i, j: ((x1 == lam[i]) & (x2 == lam[j])) | ((x1 == lam[j]) & (x2 == lam[i]))
+            return jnp.where(hit(0, 1), t[0], jnp.where(hit(1, 2), t[1], t[2]))
+
+        @jax.custom_jvp
+        def dfunc(x):
+            return tab(x, a)
+
+        @dfunc.defjvp
+        def dfunc_jvp(p, t):
+            return dfunc(p[0]), t[0] * tab(p[0], f2)
+
+        @jax.custom_jvp
+        def func(x):
+            return 0.0 * x
+
+        @func.defjvp
+        def func_jvp(p, t):
+            return func(p[0]), t[0] * dfunc(p[0])
+
+        @jax.custom_jvp
+        def rd(x1, x2):
+            return tab2(x1, x2, b)
+
+        @rd.defjvp
+        def rd_jvp(p, t):
+            return rd(*p), t[0] * tab2(p[0], p[1], rb1) + t[1] * tab2(p[0], p[1], rb2)
+        with eig_stub_pert(lam, V):
+            C = V @ jnp.diag(lam) @ V.T
+            sol2 = jax.jvp(lambda X: T._symmetric_matrix_function_jvp_helper(func, rd, (X,), (Cd,)), (C,), (C2d,))[1]
+            # the stub's own first-order data along dC2 (same terms as inside the helper's derivative): the oracle is written with them
+            dlam, dV = jax.jvp(lambda X: T.eigen_sym33_unit(X), (C,), (C2d,))[1]
+        # the table values exactly as the helper sees them (same guard x2_safe as in the helper, unused when the pair is distinct)
+        safe = lambda x1, x2: jnp.where(x2 == x1, x2 + 1.0, x2)
+        pr = [(lam[x], safe(lam[x], lam[y])) for x, y in PAIRS]
+        A1 = jnp.stack([dfunc(lam[k]) for k in range(3)])
+        F2 = jnp.stack([tab(lam[k], f2) for k in range(3)])
+        B = jnp.stack([rd(x1, x2) for x1, x2 in pr])
+        RB1 = jnp.stack([tab2(x1, x2, rb1) for x1, x2 in pr])
+        RB2 = jnp.stack([tab2(x1, x2, rb2) for x1, x2 in pr])
+        return sol2, dlam, dV, A1, F2, B, RB1, RB2
+
+    def smp(rng):
+        return [onp.sort(rng.normal(size=3)) + onp.array([-1.0, 0.0, 1.0]), rnd33(rng), rnd33(rng)] + [rng.normal(size=3) for _ in range(5)]
+    ex = dict(lam=onp.array([0.5, 1.0, 2.0]), Cd=onp.ones((3, 3)), C2d=onp.ones((3, 3)) * 0.5, a=onp.ones(3), f2=onp.ones(3),
+              b=onp.ones(3), rb1=onp.ones(3), rb2=onp.ones(3))
+    c = Case(h, fn, ex, sampler=smp, label='helper_second_order', jit=False)
+
+    def spec(i, o):
+        lam, V, Cd, C2d = list(i['lam']), eye(), M(i['Cd']), M(i['C2d'])
+        a, f2, b, rb1, rb2 = [list(o[k]) for k in (3, 4, 5, 6, 7)]
+        sol2, dl, dV = M(o[0]), list(o[1]), M(o[2])
+        D = msym(Cd)
+        W = mm(mm(mT(V), D), V)
+        W2 = mm(mm(mT(V), msym(C2d)), V)
+        Om = _omega(lam, W2)
+        H = hmat(lam, a, b)
+        dHo = [v_add(v_mul(rb1[k], dl[x]), v_mul(rb2[k], dl[y])) for k, (x, y) in enumerate(PAIRS)]
+        dH = hmat(lam, [v_mul(f2[k], dl[k]) for k in range(3)], dHo)
+        Mh = hadamard(H, W)
+        dW = madd(mm(mm(mT(dV), D), V), mm(mm(mT(V), D), dV))
+        want = madd(madd(mm(mm(dV, Mh), mT(V)), mm(mm(V, Mh), mT(dV))), mm(mm(V, madd(hadamard(dH, W), hadamard(H, dW))), mT(V)))
+        distinct = [v_not(v_eq(lam[x], lam[y])) for x, y in PAIRS]
+        lhs, rhs = fl(sol2), fl(want)
+        return distinct, [Eq(lhs[3 * x + y], rhs[3 * x + y], name='derivative_of_DK_form[%d%d]' % (x, y), scale=1.0) for x in range(3) for y in range(3)] + \
+            [Eq(dl, [W2[0][0], W2[1][1], W2[2][2]], name='stub_dlam_is_diag_W2'),
+             Eq(fl(dV), fl(mm(V, Om)), name='stub_dV_is_V_Omega')]
+    c.prove('generic', spec, order=('nlsat', 'core'), cap=60)
+
+
+_SD_CACHE = {}
+
+
+def _second_derivative_real(f_symm, C, D, D2):
+    """(jvp(jvp) of the REAL function, 4th-order central finite difference of the REAL first derivative), both at C along D then D2"""
+    if f_symm not in _SD_CACHE:
+        d1 = lambda X, Y: jax.jvp(f_symm, (X,), (Y,))[1]
+        _SD_CACHE[f_symm] = (jax.jit(d1), jax.jit(lambda X, Y, Z: jax.jvp(lambda U: d1(U, Y), (X,), (Z,))[1]))
+    d1j, d2j = _SD_CACHE[f_symm]
+    C, D, D2 = [jnp.asarray(onp.asarray(x, dtype=float)) for x in (C, D, D2)]
+    a = onp.asarray(d2j(C, D, D2))
+    hstep = 1e-3 * max(1e-3, float(onp.min(onp.abs(onp.linalg.eigvalsh(onp.asarray(C)))))) / max(1e-12, float(onp.abs(onp.asarray(D2)).max()))
+    g = lambda t: onp.asarray(d1j(C + t * D2, D))
+    b = (-g(2 * hstep) + 8 * g(hstep) - 8 * g(-hstep) + g(-2 * hstep)) / (12 * hstep)
+    return a, b
+
+
+FD_TOL = 1e-5
+
+
+@obligation(P, 'O8b.second_order_sqrt_identity', cap=300)
+def o8b(h):
+    """second derivative of sqrt_symm through the REAL jvp rule (jax.jvp of jax.jvp, eigen stub with the perturbation contract):
+    differentiating S(C) S(C) = C twice along dC gives S'' S + S S'' + 2 S' S' = 0; proved in the eigenframe for all distinct positive
+    spectra and all symmetric dC. A counterexample is replayed on the unmodified library: jvp(jvp(sqrt_symm)) against a 4th-order
+    finite difference of jvp(sqrt_symm) at the model point"""
+    T = TM()
+    from optimism import Math
+    h.encoded(T.sqrt_symm, T._sqrt_symm_jvp, T._sqrt_relative_difference, T._symmetric_matrix_function_jvp_helper, T.symmetric_matrix_function,
+              Math.safe_sqrt, Math.safe_sqrt_jvp)
+    h.bounds('C = diag(r_i^2) with 0 < r_0 < r_1 < r_2 (eigenframe V = I; distinct eigenvalues); first direction dC: all symmetric 3x3 (6 reals); second direction dC2: the 6 elements of the symmetric basis, all symmetric dC2 by linearity of the tangent map (polarised identity)')
+    h.outside('repeated eigenvalues (see O8c)', 'general orientations V (the eigenframe already exercises the rotation term dV = V Omega)', *NA)
+    h.assume_note(PERT_NOTE, CONTRACT_NOTE, SEED_NOTE)
+
+    def fn(r, d6, e6):
+        lam = r * r
+        C, D, D2 = jnp.diag(lam), sym6(d6), sym6(e6)
+        with eig_stub_pert(lam, jnp.eye(3)):
+            d1 = lambda X, Y: jax.jvp(T.sqrt_symm, (X,), (Y,))
+            (S, S1), (_, S2) = jax.jvp(lambda X: d1(X, D), (C,), (D2,))
+            S1b = d1(C, D2)[1]
+        return S, S1, S1b, S2
+    ctx = jx.Ctx()
+    ctx.keep_alive = []
+    for ri in sym.sym_array('r', (3,)):
+        t = ri * ri
+        ctx.keep_alive.append(t)
+        ctx.cache[('sqrt', t.get_id())] = ri
+    c = Case(h, fn, dict(r=onp.array([0.7, 1.0, 1.4]), d6=onp.ones(6), e6=onp.ones(6) * 0.5),
+             sampler=lambda rng: [onp.sort(rng.uniform(0.4, 2.0, size=3)) + onp.array([0, 0.1, 0.2]), rng.normal(size=6), rng.normal(size=6)],
+             label='sqrt_second_order', jit=False, ctx=ctx)
+    r, e6 = list(c.inp['r']), list(c.inp['e6'])
+    S, S1, S1b, S2 = [M(x) for x in c.out]
+    # polarised identity: S''[D,D2] S + S S''[D,D2] + S'[D] S'[D2] + S'[D2] S'[D] = 0
+    R = madd(madd(mm(S2, S), mm(S, S2)), madd(mm(S1, S1b), mm(S1b, S1)))
+    assumes = [v_lt(0.0, r[0]), v_lt(r[0], r[1]), v_lt(r[1], r[2])] + c.side(True)
+
+    def concrete(vals):
+        rr = onp.asarray(vals['r'], dtype=float)
+        D = onp.asarray(sym6(onp.asarray(vals['d6'], dtype=float)))
+        D2 = onp.asarray(sym6(onp.asarray(vals['e6'], dtype=float)))
+        ok = bool(0 < rr[0] < rr[1] < rr[2])
+        a, b = _second_derivative_real(T.sqrt_symm, onp.diag(rr * rr), D, D2)
+        sc = float(onp.abs(b).max()) + float(onp.abs(a).max()) + 1e-300
+        return ok, Le(float(onp.abs(a - b).max()), FD_TOL * sc, scale=sc), dict(jvp_jvp=a.tolist(), finite_difference=b.tolist())
+    # the second direction runs over the 6 elements of the symmetric basis (the identity is linear in dC2: jvp tangents are linear maps);
+    # the first direction dC and the spectrum stay symbolic
+    for k in range(6):
+        sub = [(e6[m], z3.RealVal(1 if m == k else 0)) for m in range(6)]
+        inp = dict(c.inp)
+        inp['e6'] = jx.lift(onp.eye(6)[k])
+        for x in range(3):
+            for y in range(x, 3):
+                Rk = z3.substitute(sym.toz(R[x][y]), *sub)
+                ak = [z3.substitute(sym.tob(a), *sub) if sym.isz(a) else a for a in assumes]
+                h.prove('identity[dC2=E%d][%d%d]' % (k, x, y), ak, Eq(Rk, 0.0, scale=1.0), inputs=inp, concrete=concrete, cap=60, order=('core', 'nlsat'))
+
+
+def _dd_tables(which, lam):
+    """first and second divided differences of f on the (concrete) spectrum, confluent forms included"""
+    f, f1, f2 = {'sqrt': (math.sqrt, lambda x: 0.5 / math.sqrt(x), lambda x: -0.25 * x ** -1.5),
+                 'log': (math.log, lambda x: 1.0 / x, lambda x: -1.0 / (x * x)),
+                 'exp': (math.exp, math.exp, math.exp)}[which]
+
+    def d1(a, b):
+        return f1(a) if a == b else (f(a) - f(b)) / (a - b)
+
+    def d2(a, b, c):
+        if a == b == c:
+            return 0.5 * f2(a)
+        if a == b:
+            return (f1(a) - d1(a, c)) / (a - c)
+        if a == c:
+            return d2(a, c, b)
+        if b == c:
+            return d2(b, c, a)
+        return (d1(a, b) - d1(b, c)) / (a - c)
+    return [[[d2(lam[i], lam[j], lam[k]) for k in range(3)] for j in range(3)] for i in range(3)]
+
+
+REPEATED_POINTS = (('generic_control', (1.3, 1.0, 0.8)), ('double', (1.3, 1.0, 1.0)), ('double_low', (1.0, 1.0, 1.3)), ('triple', (1.1, 1.1, 1.1)),
+                   ('uniaxial_0.2pct', (1.002 ** 2, 1.0, 1.0)))
+
+
+def _o8c(h, which, points):
+    T = TM()
+    f_symm = {'sqrt': T.sqrt_symm, 'exp': T.exp_symm, 'log': T.log_symm}[which]
+    for pname, lamc in points:
+        Cc = onp.diag(onp.asarray(lamc, dtype=float))
+
+        def fn(d6, Cc=Cc):
+            D = sym6(d6)
+            d1 = lambda X: jax.jvp(f_symm, (X,), (D,))[1]
+            return jax.jvp(d1, (jnp.asarray(Cc),), (D,))[1]
+        c = Case(h, fn, dict(d6=onp.array([0.3, -0.2, 0.5, 0.1, 0.4, -0.3])), sampler=lambda rng: [rng.normal(size=6)], label='%s_second_derivative[%s]' % (which, pname))
+        dd = _dd_tables(which, lamc)
+        d6 = list(c.inp['d6'])
+        S2 = M(c.out)
+
+        def want(d):
+            D = msym6(d)
+            return [[v_sum([v_mul(2.0 * dd[x][y][k], v_mul(D[x][k], D[k][y])) for k in range(3)]) for y in range(3)] for x in range(3)]
+        W = want(d6)
+        nrm2 = v_dot(d6, d6)
+
+        def concrete(vals, Cc=Cc):
+            d = onp.asarray(vals['d6'], dtype=float)
+            D = onp.asarray(sym6(d))
+            a, b = _second_derivative_real(f_symm, Cc, D, D)
+            sc = float(onp.abs(b).max()) + float(onp.abs(a).max()) + 1e-300
+            closed = onp.asarray(want([float(x) for x in d]), dtype=float)
+            return True, Le(float(onp.abs(a - b).max()), FD_TOL * sc, scale=sc), dict(jvp_jvp=a.tolist(), finite_difference=b.tolist(), closed_form=closed.tolist())
+        for x in range(3):
+            for y in range(x, 3):
+                h.prove('%s[%s].matches_frechet[%d%d]' % (which, pname, x, y), c.side(True),
+                        Le(v_abs(v_sub(S2[x][y], W[x][y])), v_mul(1e-6, nrm2), scale=nrm2), inputs=c.inp, concrete=concrete, cap=30, order=('nlsat', 'core'))
+
+
+def _o8c_meta(h, which):
+    T = TM()
+    h.encoded({'sqrt': T.sqrt_symm, 'log': T.log_symm, 'exp': T.exp_symm}[which], T._symmetric_matrix_function_jvp_helper, T.eigen_sym33_unit, T.eigen_sym33_non_unit)
+    h.bounds('C: the listed diagonal points (concrete; the primal computation is folded by the real primitives): ' +
+             ', '.join('%s = diag%s' % (n, tuple(round(x, 6) for x in l)) for n, l in REPEATED_POINTS) +
+             '; dC: all symmetric 3x3 (6 reals), same direction twice; tolerance 1e-6 |dC|^2')
+    h.outside('symbolic C with repeated eigenvalues (the twice-differentiated eigen routine with symbolic entries is out of reach)', *NA)
+    h.assume_note('closed form: second divided differences evaluated in binary64 by the harness at the concrete spectrum')
+
+
+@obligation(P, 'O8c.second_derivative_at_repeated_eigenvalues_sqrt', cap=400)
+def o8c_sqrt(h):
+    """the second derivative of sqrt_symm delivered by the REAL pipeline (jax.jvp of jax.jvp through the custom rule AND the real
+    eigen_sym33_unit, no stub) at tensors with EXACTLY repeated eigenvalues equals the second Frechet derivative
+    2 sum_k f[lam_i,lam_j,lam_k] dC_ik dC_kj (second divided differences, confluent forms), for every symmetric direction dC;
+    a generic (distinct) point is included as a control of the closed form"""
+    _o8c_meta(h, 'sqrt')
+    _o8c(h, 'sqrt', REPEATED_POINTS)
+
+
+@obligation(P, 'O8c.second_derivative_at_repeated_eigenvalues_log', cap=400)
+def o8c_log(h):
+    """as O8c..._sqrt for log_symm (the logarithmic-strain models): quick tier control + double + uniaxial 0.2 % stretch, thorough all points"""
+    _o8c_meta(h, 'log')
+    _o8c(h, 'log', REPEATED_POINTS if h.thorough() else [q for q in REPEATED_POINTS if q[0] in ('generic_control', 'double', 'uniaxial_0.2pct')])
+
+
+@obligation(P, 'O8c.second_derivative_at_repeated_eigenvalues_exp', tiers=('thorough',), cap=400)
+def o8c_exp(h):
+    """as O8c..._sqrt for exp_symm"""
+    _o8c_meta(h, 'exp')
+    _o8c(h, 'exp', REPEATED_POINTS)
